@@ -64,6 +64,46 @@ def bank_for(name: str, D: int, kmax: int):
     return _BANKS[key]
 
 
+def synth_bank(name: str, D: int, kmax: int, M: int, nf: int = 2):
+    """a LARGE-filter invariant bank (side M) without computing a full invariant basis: sparse random integer
+    tensor filters summed over the group with the exact reference action (the sum over the orbit is invariant and
+    stays integer; the property is quantified over whatever invariant filters are supplied).  Deterministic in
+    (name, D, kmax, M), so that a replay rebuilds the same bank; the invariance is asserted exactly."""
+    key = ("synth", name, D, kmax, M)
+    if key not in _BANKS:
+        import jax.numpy as jnp
+        import ginjax.geometric as geom
+
+        t0 = time.time()
+        rng = np.random.default_rng([7919, D, kmax, M, ["B", "SO", "C2"].index(name)])
+        gs = group_elements(name, D)
+        data = {}
+        for k in range(kmax + 1):
+            for p in (0, 1):
+                fs = []
+                for _ in range(40):
+                    if len(fs) == nf:
+                        break
+                    shape = (1,) + (M,) * D + (D,) * k
+                    raw = rng.integers(-1, 2, size=shape) * (rng.random(size=shape) < 0.25)
+                    acc = sum(refs.act_block(raw.astype(np.float64), D, k, p, g) for g in gs)
+                    if np.any(acc != 0):
+                        fs.append(acc[0])
+                if fs:
+                    # every filter divided by the gcd of its entries (stays integer and invariant)
+                    block = np.array([f / max(1, int(np.gcd.reduce(np.abs(f).astype(np.int64).reshape(-1)))) for f in fs])
+                    for g in gs:
+                        if not np.array_equal(refs.act_block(block, D, k, p, g), block):
+                            raise InfraError(f"C06 synthetic bank: filter of type ({k},{p}) is not invariant under {name}_{D}")
+                    data[(k, p)] = jnp.asarray(block, dtype=jnp.float32)
+        b, integer = geom.MultiImage(data, D, True), True
+        amax = max(float(np.max(np.abs(np.asarray(v)))) for v in b.values())
+        log(f"[C06] synthetic invariant bank of {name}_{D}, side {M}, k<={kmax}: "
+            f"{{{', '.join(f'{k}:{v.shape[0]}' for k, v in b.items())}}} max |entry| {amax:g} in {time.time() - t0:.1f}s")
+        _BANKS[key] = (b, integer)
+    return _BANKS[key]
+
+
 # ---------------------------------------------------------------------------------------------
 # one layer, all group elements
 
@@ -128,7 +168,9 @@ def shift_failures(geom, layer, c, shifts, float_ok):
 
 
 def describe(c, group):
+    extra = {"bank_M": int(c["bank_M"])} if c.get("bank_M") else {}  # large-filter cases: side of the synthetic bank
     return {
+        **extra,
         "D": c["D"], "group": group, "input_keys": L.jsig(c["in_sig"]), "target_keys": L.jsig(c["target"]),
         "use_bias": c["bias"], "opts": c["opts"], "is_torus": [bool(t) for t in c["torus"]],
         "x": {str(k): list(np.asarray(v).shape) for k, v in c["x_blocks"].items()},
@@ -300,6 +342,81 @@ def gen_case(ctx: Ctx, D, bank, types, axis_free, nmax, bias, kind=None, force_l
                 torus=torus, padkind=kind)
 
 
+def gen_large_case(ctx: Ctx, D, M, bank, types, nmax, bias, N, kind, torus=None, rd=None):
+    """a layer whose filters have side M >= 5 (M**D >= 49 taps) on an image of extents N with default / TORUS
+    padding, unit stride, no image dilation; `torus` None = fully toroidal"""
+    rng = ctx.rng
+    in_sig = L.gen_sig(rng, types, nmax)
+    target = L.gen_sig(rng, types, nmax)
+    opts = {"padding": None if kind == "none" else "TORUS"}
+    if rd is not None:
+        opts["rhs_dilation"] = int(rd)
+    order = [int(i) for i in rng.permutation(len(in_sig))]
+    x_blocks = {}
+    for i in order:
+        (k, p), ch = in_sig[i]
+        x_blocks[(k, p)] = rng.integers(-2, 3, size=(ch,) + tuple(N) + (D,) * k).astype(np.float32)
+    return dict(D=D, in_sig=in_sig, target=target, bank=bank, bias=bias, opts=opts, x_blocks=x_blocks,
+                torus=[True] * D if torus is None else [bool(t) for t in torus], padkind=kind, bank_M=M)
+
+
+def exact_bound(c):
+    """crude bound on every partial sum of the bias-free layer: sum |filter| * filters * max |w| * max |x| * channels
+    * tensor contraction; below 2**24 integer float32 arithmetic is exact"""
+    D = c["D"]
+    fmax = max(float(np.max(np.sum(np.abs(np.asarray(v)).reshape(v.shape[0], -1), axis=1))) * v.shape[0] for v in c["bank"].values())
+    ch = sum(n * D ** t[0] for t, n in c["in_sig"])
+    return fmax * 2 * 2 * ch
+
+
+def large_filter_cases(ctx: Ctx, geom, ml, quick: bool):
+    """filters of side 7 in d=2 and side 5 in d=3 (>= 49 taps) on toroidal images with at least one odd extent, square
+    and non-square, judged by the same oracle (whole group, cyclic shifts, Lean model in d=2)"""
+    import equiv
+
+    rng = ctx.rng
+    t0 = time.time()
+    plans = []
+    # (D, M, kmax of the bank, types, nmax, extents, number of random extra cases)
+    fixed2 = [(11, 11), (9, 10)] if quick else [(11, 11), (9, 10), (10, 9), (7, 7), (8, 8), (7, 12), (13, 13), (9, 9)]
+    fixed3 = [(5, 6, 5)] if quick else [(5, 5, 5), (5, 6, 5), (6, 6, 5), (7, 5, 6)]
+    plans.append((2, 7, 2, L.TYPES[:4], 2, fixed2, 1 if quick else 24))
+    plans.append((3, 5, 2, L.TYPES[:4], 2, fixed3, 0 if quick else 4))
+    k = int(rng.integers(len(BIASES)))
+    for D, M, kmax, types, nmax, fixed, extra in plans:
+        bank, integer = synth_bank("B", D, kmax, M)
+        gs_all = group_elements("B", D)
+        for i in range(len(fixed) + extra):
+            bias = BIASES[k % len(BIASES)]
+            kind = ("none", "TORUS")[(k // 2 + i) % 2]
+            k += 1
+            torus, rd = None, None
+            if i < len(fixed):
+                N = list(fixed[i])
+            else:
+                lo = M if D == 2 else M
+                N = [int(rng.integers(lo, lo + (6 if D == 2 else 3))) for _ in range(D)]
+                if all(n % 2 == 0 for n in N):
+                    N[int(rng.integers(D))] += 1
+                r = i % 6
+                if r == 4:  # mixed boundaries: the flags travel with the axes
+                    torus = [bool(rng.integers(0, 2)) for _ in range(D)]
+                    torus[int(rng.integers(D))] = True
+                elif r == 5 and D == 2:  # dilated large filter: still has to fit on the torus
+                    rd = 2
+                    N = [int(rng.integers(2 * (M - 1) + 1, 2 * (M - 1) + 4)) for _ in range(D)]
+            c = gen_large_case(ctx, D, M, bank, types, nmax, bias, N, kind, torus=torus, rd=rd)
+            gs = gs_all
+            if D == 3 and len(gs_all) > 12:
+                gs = [np.eye(D, dtype=np.int64)] + equiv.group_subset(D, rng, 11 if quick else 23)
+            ctx.hist("large_filter", f"d={D} side {M}")
+            ctx.hist("large_filter_odd_extent", any(n % 2 for n in N))
+            ctx.hist("large_filter_fully_toroidal", all(c["torus"]))
+            exact = integer and exact_bound(c) < 2 ** 24
+            one_layer(ctx, geom, ml, c, "B", gs, exact, with_model=(D == 2 and i < 2))
+    log(f"[C06] large-filter cases done in {time.time() - t0:.1f}s")
+
+
 def trained_layer(ctx: Ctx, geom, ml, c, group, gs):
     """the layer after two plain gradient steps over ALL its inexact-array leaves (what `ml.train` updates):
     the parameter values training reaches are parameter values, and the layer must still commute with the group"""
@@ -379,7 +496,7 @@ def run(ctx: Ctx):
         "in turn; padding kinds default/TORUS/SAME/VALID/integer/explicit equal pairs; filter dilation 1-2; image "
         "dilation 1-2 with literal padding (and, less often, with the string / default paddings; always twice with SAME / default on a non-toroidal image); per-axis different options only for C2^d; random torus flags (travel with "
         "the image); square and non-square extents 3-5; every element of the group (B_3 quick: 12 seeded elements incl. "
-        "a reflection and an axis exchange); cyclic shifts on toroidal inputs; two layers per run with equal channel counts on each side and target types in unsorted order; three layers per run re-checked after two gradient steps over all their array leaves. Non-trivial: non-empty non-zero output "
+        "a reflection and an axis exchange); cyclic shifts on toroidal inputs; two layers per run with equal channel counts on each side and target types in unsorted order; three layers per run re-checked after two gradient steps over all their array leaves; LARGE filters: B_2 banks of side 7 and B_3 banks of side 5 (sparse random integer filters summed over the group with the reference action, invariance asserted exactly) on toroidal images with at least one odd extent (11x11, 9x10, 5x6x5; thorough: more extents, mixed flags, filter dilation 2), default / TORUS padding. Non-trivial: non-empty non-zero output "
         "and at least one non-identity element. Distinct = distinct (layer configuration, weights, biases, input)."
     )
     ctx.assumptions = [
@@ -431,6 +548,7 @@ def run(ctx: Ctx):
             one_layer(ctx, geom, ml, c, name, gs, integer, with_model=(D == 2 or i == 0))
             if name == "B" and D == 2 and i in (1, 3, 8) and c["opts"].get("lhs_dilation") is None:
                 trained_layer(ctx, geom, ml, c, name, gs)
+    large_filter_cases(ctx, geom, ml, quick)
     log(f"[C06] {ctx.evaluations} cases in {time.time() - t0:.1f}s")
 
 
@@ -441,10 +559,16 @@ def replay(ctx: Ctx, rep: dict):
 
     c0 = rep["case"]
     D, name = c0["D"], c0["group"]
-    bank, integer = bank_for(name, D, c0.get("bank_kmax", 2))
+    if c0.get("bank_M"):
+        bank, integer = synth_bank(name, D, c0.get("bank_kmax", 2), int(c0["bank_M"]))
+    else:
+        bank, integer = bank_for(name, D, c0.get("bank_kmax", 2))
     arr = lambda b: np.array(b["data"], dtype=np.float32).reshape(b["shape"])
     c = dict(D=D, in_sig=[(tuple(t), n) for t, n in c0["input_keys"]], target=[(tuple(t), n) for t, n in c0["target_keys"]],
              bank=bank, bias=c0["use_bias"], opts=c0["opts"], torus=c0["is_torus"],
-             x_blocks={tuple(e["key"]): arr(e["block"]) for e in c0["input"]}, padkind="replay")
+             x_blocks={tuple(e["key"]): arr(e["block"]) for e in c0["input"]}, padkind="replay",
+             bank_M=c0.get("bank_M"))
     ctx.rule = "replay of one stored layer over its group"
+    if c0.get("bank_M"):
+        integer = integer and exact_bound(c) < 2 ** 24
     one_layer(ctx, geom, ml, c, name, group_elements(name, D), integer, params=(c0.get("weights", []), c0.get("bias", [])))
